@@ -22,6 +22,23 @@ package scen
 //
 // The host's addresses change between operations (with or without the
 // address-update event); a provide advertises what the host has when it runs.
+//
+// Value search (GetValue / SearchValue through FullRT): "after a completed
+// value search the peers among the closest that did not return the best value
+// are sent it while peers that did are not". FullRT asks its GetClosestPeers
+// result R for the value; scripted peers hold nothing, values of different
+// rank, invalid or misfiled records, or fail the request; requests FullRT gives
+// up on (its heuristics stop waiting once enough peers answered) count as "did
+// not return the best value". The corrective-put rules are those of the
+// standard client (c06.go judgeCorrective, rule prefix frt-cp): content, no put
+// without a value, none to a peer whose processed reply carried the best value,
+// recipients = R minus those peers; and frt-cp-put-cancelled (c06.go
+// checkAtReturn): a corrective put must not be cancelled the instant it is
+// started. The caller either keeps its context or releases it on return, as in
+// the corrective-put scenario. Whether a put that was cancelled right after it
+// was started reaches the sender dead or alive is the Go scheduler's choice, so
+// the recipient rule here only asks that the request reached the sender and
+// leaves the state of its context to frt-cp-put-cancelled.
 
 import (
 	"context"
@@ -52,7 +69,10 @@ func init() {
 		Faults: []string{"fault_recipient_fail", "fault_recipient_hang", "fault_recipient_slow", "fault_recipient_bad_echo", "time_advance",
 			"probe_fullrt_put_ok", "probe_fullrt_provide_ok", "probe_fullrt_op_failed", "probe_fullrt_inflight_at_return", "probe_fullrt_empty_table", "probe_fullrt_no_addrs",
 			"probe_recipient_failed_others_served", "probe_recipient_hung_others_served",
-			"probe_recipient_failed_while_others_inflight", "probe_addrs_changed_with_event", "probe_addrs_changed_silently", "probe_provide_after_addr_change"},
+			"probe_recipient_failed_while_others_inflight", "probe_addrs_changed_with_event", "probe_addrs_changed_silently", "probe_provide_after_addr_change",
+			"fault_rpc_error", "fault_invalid_record", "fault_wrong_key_record", "probe_fullrt_search_completed", "probe_fullrt_search_no_value", "probe_fullrt_best_changed",
+			"probe_fullrt_corrective_put_sent", "probe_fullrt_corrective_none_needed", "probe_fullrt_holder_of_best_in_R", "probe_fullrt_get_given_up",
+			"probe_local_value_in_search", "probe_search_via_getvalue", "probe_quorum_not_reached", "probe_caller_released_ctx", "probe_at_return_requests_judged"},
 	})
 }
 
@@ -99,8 +119,13 @@ func runC06FullRT(s *sim.Sim) {
 		crawled = []*simnet.Peer{u.Peers[rng.Intn(N)]}
 	}
 	recipFaults := []int{1, 2, 0}[s.Draw("recip-faults", 3)]
+	// peers that fail GET_VALUE requests (value search)
+	getFaultPct := []int{0, 15, 40}[s.Draw("get-faults", 3)]
 	for _, p := range u.Peers {
 		w.h.Beh[p.ID] = &Behaviour{}
+		if rng.Intn(100) < getFaultPct {
+			w.h.Beh[p.ID].ReqMode = reqError
+		}
 		var r c06Recip
 		if recipFaults > 0 {
 			pct := []int{0, 12, 35}[recipFaults]
@@ -199,7 +224,12 @@ func runC06FullRT(s *sim.Sim) {
 			}
 			s.Tracef("host addresses changed: host=%d event=%v", len(addrs), announced)
 		}
-		if s.Draw("kind", 2) == 0 {
+		kind := s.Draw("kind", 3)
+		if kind == 2 {
+			if !w.fullRTSearch(frt, i, closest) {
+				return
+			}
+		} else if kind == 0 {
 			key := fmt.Sprintf("key-%d", s.Draw("key", 1<<16))
 			val := rankValue(1+s.Draw("rank", 3), time.Time{}, key)
 			R0, ok0 := closest(key)
@@ -316,4 +346,56 @@ func (w *c06World) checkFullRTRecipients(what string, msgs []*simnet.RPC, R []pe
 			return
 		}
 	}
+}
+
+// fullRTSearch runs one value search through FullRT and judges its corrective
+// puts (see the header). It returns false when the run is over.
+func (w *c06World) fullRTSearch(frt *fullrt.FullRT, i int, closest func(string) ([]peer.ID, bool)) bool {
+	s := w.s
+	key := fmt.Sprintf("key-%d", s.Draw("key", 1<<16))
+	// what the scripted peers hold for this key
+	w.holds, w.wrongKey = map[peer.ID][]byte{}, map[peer.ID]bool{}
+	w.drawHoldings(newSubRng(s, fmt.Sprintf("holdings-%d", i)), []int{50, 90, 15}[s.Draw("hold-pct", 3)], key)
+	// optionally a local record (stored through the public API, not under test here)
+	if s.Chance("local-record", 1, 3) {
+		lv := rankValue(1+s.Draw("local-rank", 3), time.Time{}, key)
+		w.endOp()
+		op := w.h.Ops.Go(s, "prep-put", func() (any, error) { return nil, frt.PutValue(context.Background(), key, lv) })
+		if !w.settle(func() bool { return op.Done && len(s.Parked()) == 0 }) {
+			s.Violate("no-return", "the preparatory FullRT.PutValue did not return")
+			return false
+		}
+	}
+	// Only quorums that cannot be reached (a quorum that is reached aborts the
+	// search, outside the clause): every holder is asked at most once, plus the
+	// local record; the margin is that of the standard scenario.
+	quorum := 0
+	if s.Chance("quorum", 1, 4) {
+		quorum = 2*len(w.holds) + 1 + s.Draw("quorum-slack", 3)
+		s.Count("probe_quorum_not_reached")
+	}
+	R0, ok0 := closest(key)
+	sr := w.runSearch(frt, "frt-cp", "FullRT.", key, quorum)
+	if sr == nil {
+		return false
+	}
+	R1, ok1 := closest(key)
+	carriers, completed := w.searchValues(sr)
+	if !completed || !ok0 || !ok1 || !sameSet(R0, R1) {
+		return true
+	}
+	// reach: a GET_VALUE of the search was given up before it was answered
+	for _, r := range w.h.Snd.Snapshot()[sr.ob.base:] {
+		if r.Req.GetType() == pb.Message_GET_VALUE && r.Cancelled {
+			s.Count("probe_fullrt_get_given_up")
+			break
+		}
+	}
+	expect, holderInR, judged := w.judgeCorrective("frt-cp", "probe_fullrt_", sr, carriers, R0, false)
+	if !judged {
+		return !s.Failed()
+	}
+	s.NonTrivial = s.NonTrivial || (len(expect) > 0 && holderInR)
+	s.State("fullrt search R=%d expect=%d emitted=%d", len(R0), len(expect), len(sr.emitted))
+	return true
 }
